@@ -26,7 +26,7 @@ use crate::{
 
 type P = RistrettoPoint;
 
-const OPS: [&str; 17] = [
+const OPS: [&str; 18] = [
     "opening-new-drop",
     "opening-clone-drop",
     "witness-init-drop",
@@ -34,6 +34,7 @@ const OPS: [&str; 17] = [
     "witness-clone-drop",
     "witness-opening-taken-then-drop",
     "mask-assign-drop",
+    "mask-compare-drop",
     "statement-seeded-clone-drop",
     "statement-inline-seed",
     "prove-unseeded",
@@ -67,6 +68,15 @@ fn secrets(cfg: &Cfg, seeded: bool) -> Secrets {
             wit.values[j] = 0xA5C3_19E7_5B2D_F100u64 + j as u64;
             patterns.push(wit.values[j].to_le_bytes().to_vec());
             names.push(format!("value[{}]", j));
+            // ... and its text renderings (a value formatted into a message is the value)
+            patterns.push(wit.values[j].to_string().into_bytes());
+            names.push(format!("value[{}] as decimal text", j));
+            patterns.push(format!("{:x}", wit.values[j]).into_bytes());
+            names.push(format!("value[{}] as hexadecimal text", j));
+            // a satisfied promise at the first position (public data; exercises the promise paths of prover and verifier)
+            if j == 0 {
+                wit.promises[0] = Some(wit.values[0] / 2);
+            }
         }
     }
     if seeded {
@@ -182,6 +192,23 @@ fn op_body(cfg: Cfg, op: &'static str, res: &mut CaseResult) -> Option<()> {
                 let m = ExtendedMask::assign(ext(cfg.d), wit.blindings[0].clone()).unwrap();
                 drop(m);
                 report(&mut res, &sec, op, allocmon::disarm());
+            },
+            "mask-compare-drop" => {
+                // comparing masks (what a wallet does with a recovered mask) makes no un-wiped copies
+                let m1 = ExtendedMask::assign(ext(cfg.d), wit.blindings[0].clone()).unwrap();
+                let m2 = ExtendedMask::assign(ext(cfg.d), wit.blindings[0].clone()).unwrap();
+                let v1 = vec![Some(ExtendedMask::assign(ext(cfg.d), wit.blindings[0].clone()).unwrap()), None];
+                let v2 = vec![Some(ExtendedMask::assign(ext(cfg.d), wit.blindings[0].clone()).unwrap()), None];
+                allocmon::arm();
+                let same = m1 == m2 && v1 == v2 && m1 != ExtendedMask::assign(ext(cfg.d), vec![Scalar::ONE; cfg.d]).unwrap();
+                drop(m1);
+                drop(m2);
+                drop(v1);
+                drop(v2);
+                report(&mut res, &sec, op, allocmon::disarm());
+                if !same {
+                    res.machinery_error("equal masks compared unequal");
+                }
             },
             "statement-seeded-clone-drop" => {
                 let params = params_cached::<P>(&cfg);
